@@ -328,7 +328,9 @@ func (s *state) walk(node parse.Node) error {
 		if err != nil {
 			return err
 		}
-		si.blocks = append(s.blocks, node.Blocks, tree.Blocks())
+		// Only the blocks overridden in the embed body and the embedded
+		// template's own blocks take part; the host's blocks do not.
+		si.blocks = append(si.blocks, node.Blocks, tree.Blocks())
 		err = si.walk(tree.Root())
 		if err != nil {
 			return err
